@@ -11,7 +11,8 @@ entity marker, any-membership, enum options, per property JSON name / required /
 proto path / field shape), an error, or a panic.
 
 Mirrors `SchemaSetFromFiles`, `SchemaSet.messageSchema`, `SchemaCache.Schema` (placeholder
-first, roll-back on failure — c032eab), `isOneofWrapper`, `buildOneofSchema`,
+first, roll-back on failure — c032eab), `RefSchema.claim` (af1da62: a schema name registered for
+one descriptor cannot be taken by another), `isOneofWrapper`, `buildOneofSchema`,
 `buildObjectSchema`, `findPSMOptions`, `messageProperties` (with `assertUniquePropertyNames`,
 c679d0c), `getProtoFieldExtensions`, `buildSchemaProperty`, `buildSchema`, `buildScalarType`
 (after 2b9baca, 1c09ecf), `buildFromStringProto`, `wktSchema`, `buildMessageFieldSchema`,
@@ -465,8 +466,11 @@ def enumRules (opts : List (String × Int)) (ins notIns : List Int) : Outcome Un
 the target the reference has afterwards, and the registry update -/
 def enumTarget (reg : Reg) (full : String) (en : EnumD) : Outcome (Option RRoot × List RegOp) :=
   match reg.find en.pkg en.split with
-  | some ent => .ok (ent.to, [])
-  | none => (buildEnum en).map fun r => (some r, [.link en.pkg en.split full r])
+  | some ent =>
+    -- ref.claim(descriptor)
+    if ent.src != en.full then .err "schema name is used by two descriptors"
+    else .ok (ent.to, [])
+  | none => (buildEnum en).map fun r => (some r, [.link en.pkg en.split en.full r])
 
 /-- `enumSchema := ref.To.(*EnumSchema)` and the rule translation -/
 def enumCheck (to : Option RRoot) (vt : VType) : Outcome Unit :=
@@ -548,8 +552,12 @@ def referenceMessage (ds : DescSet) (reg : Reg) (full : String) (flatten : Bool)
     | some m =>
       let f : RField :=
         if isOneofWrapper m then .oneof ⟨m.pkg, m.split⟩ else .object ⟨m.pkg, m.split⟩ flatten
-      if reg.has m.pkg m.split then .ok ⟨f, [], none⟩
-      else .ok ⟨f, [.add m.pkg m.split full], some m⟩
+      match reg.find m.pkg m.split with
+      | some ent =>
+        -- ref.claim(descriptor)
+        if ent.src != m.full then .err "schema name is used by two descriptors"
+        else .ok ⟨f, [], none⟩
+      | none => .ok ⟨f, [.add m.pkg m.split m.full], some m⟩
 
 /-- `buildMessageFieldSchema` -/
 def buildMessageField (ds : DescSet) (reg : Reg) (full : String) (e : Ext) : Outcome Built :=
@@ -856,12 +864,14 @@ theorem referenceMessage_push (ds : DescSet) (reg : Reg) (full : String) (fl : B
     · rename_i m' hm'
       simp only at h
       split at h
-      · cases h; cases hp
-      · rename_i hhas
+      · split at h
+        · cases h
+        · cases h; cases hp
+      · rename_i hfind
         cases h
         simp only [Option.some.injEq] at hp
         subst hp
-        refine ⟨?_, by simpa using hhas, ?_⟩
+        refine ⟨?_, by simp [Reg.has, hfind], ?_⟩
         · unfold DescSet.msg? at hm'
           exact List.mem_of_find?_eq_some hm'
         · simp only [Reg.applyAll, List.foldl_cons, List.foldl_nil]
@@ -983,9 +993,12 @@ def buildMessage (ds : DescSet) (reg : Reg) (m : Msg) : Outcome Reg :=
 def messageSchema (ds : DescSet) (reg : Reg) (m : Msg) : Outcome Reg :=
   match reg.find m.pkg m.split with
   | some e =>
-    match e.to with
-    | some _ => .ok reg
-    | none => .err "unlinked ref"
+    -- built.claim(src)
+    if e.src != m.full then .err "schema name is used by two descriptors"
+    else
+      match e.to with
+      | some _ => .ok reg
+      | none => .err "unlinked ref"
   | none => buildMessage ds reg m
 
 def messagesLoop (ds : DescSet) (reg : Reg) : List String → Outcome Reg
@@ -1006,10 +1019,14 @@ def enumsLoop (ds : DescSet) (reg : Reg) : List String → Outcome Reg
     match ds.enum? full with
     | none => .panic "enum descriptor not in the set"
     | some en =>
-      if reg.has en.pkg en.split then enumsLoop ds reg rest
-      else
+      match reg.find en.pkg en.split with
+      | some e =>
+        -- ref.claim(descriptor), then `didExist`: referenced by an earlier message
+        if e.src != en.full then .err "schema name is used by two descriptors"
+        else enumsLoop ds reg rest
+      | none =>
         match buildEnum en with
-        | .ok r => enumsLoop ds (reg.apply (.link en.pkg en.split full r)) rest
+        | .ok r => enumsLoop ds (reg.apply (.link en.pkg en.split en.full r)) rest
         | .err x => .err x
         | .panic w => .panic w
 
